@@ -385,8 +385,9 @@ def check_gate_2qutrit(item, ctx):
         return
     ctx.close(u, R.expm_herm(h_ref), t, "gate2qt:unitary_is_exp_minus_i_h")
     # ids are accepted and documented as roles; the Hamiltonian of these names does not depend on them
-    ctx.close(gt.generate_gate_mat_from_gate_name(name, ids=[0, 1]), g, 0.0, "gate2qt:ids_ascending_same")
     if item["level"] == "gate":
+        # ids are accepted and documented as roles; the Hamiltonian of these names does not depend on them
+        ctx.close(gt.generate_gate_mat_from_gate_name(name, ids=[0, 1]), g, 0.0, "gate2qt:ids_ascending_same")
         c_sys = csys(sys_)
         obj = gt.generate_gate_object_from_gate_name_object_name(name, "gate", c_sys=c_sys)
         ctx.check(type(obj).__name__ == "Gate", "gate2qt:type")
@@ -398,9 +399,17 @@ def check_gate_2qutrit(item, ctx):
 def lindbladian_items(tier):
     from quara.objects import gate_typical as gt
 
-    items = small_gate_items()
+    items = []
+    for it in small_gate_items():
+        it = dict(it)
+        # the generated object costs seconds on 8- and 9-dimensional systems (calc_k_mat): gapped ids add nothing there
+        gapped = it["ids"] is not None and sorted(it["ids"]) != list(range(len(it["ids"])))
+        it["level"] = "mat" if (it["sys"] == "3q" and gapped and tier == "quick") else "object"
+        items.append(it)
     names = gt.get_gate_names_2qutrit()
-    items += [{"sys": "2qutrit", "name": n, "ids": None} for n in _hash_order(names[:: 13], "el")[: N_LINDBLADIAN_2QT[tier]]]
+    chosen = _hash_order(names[:: 13], "el")[: N_LINDBLADIAN_2QT[tier]]
+    n_obj = 8 if tier == "quick" else 100
+    items += [{"sys": "2qutrit", "name": n, "ids": None, "level": "object" if i < n_obj else "mat"} for i, n in enumerate(chosen)]
     return items
 
 
@@ -438,13 +447,696 @@ def check_lindbladian(item, ctx):
     ctx.close(lmat[0], np.zeros(d * d), t, "el:ref_generator_tp")
     ctx.close(lmat + lmat.T, np.zeros((d * d, d * d)), t * 4, "el:ref_generator_antisymmetric")
     ctx.close(R.expm_antisym(lmat).real, g, 1e-10 * (1 + scale) * d * d, "el:expm_lindbladian_is_gate_mat", name)
-    el = gen(name, "effective_lindbladian", ids=ids, c_sys=c_sys)
+    ctx.label("level:" + item.get("level", "object"))
+    if item.get("level", "object") != "object":
+        return
+    # built without the constructor check and judged once (is_cp costs seconds on 8/9-dimensional systems)
+    el = gen(name, "effective_lindbladian", ids=ids, c_sys=c_sys, is_physicality_required=False)
     ctx.check(type(el).__name__ == "EffectiveLindbladian", "el:type")
     ctx.close(el.hs, lmat, t, "el:object_hs_equals_mat")
     ctx.check(bool(el.is_physical()), "el:is_physical")
     ctx.close(el.to_gate().hs, g, 1e-10 * (1 + scale) * d * d, "el:to_gate_is_gate_mat")
-    el2 = qt.generate_effective_lindbladian_object(name, "effective_lindbladian", dims=dims, ids=ids, c_sys=c_sys)
+    el2 = qt.generate_effective_lindbladian_object(name, "effective_lindbladian", dims=dims, ids=ids, c_sys=c_sys,
+                                                   is_physicality_required=False)
     ctx.close(el2.hs, el.hs, 0.0, "el:dispatcher_same")
+    if d <= 4:
+        ctx.check(bool(gen(name, "effective_lindbladian", ids=ids, c_sys=c_sys).is_physicality_required), "el:constructible_with_physicality_required")
+
+
+# ----------------------------------------------------------------------------- facet: measurement processes
+def mprocess_items(tier):
+    from quara.objects import mprocess_typical as mt
+
+    return [{"name": n, "sys": R.MPROCESS_SYS[n.split("-")[0]]} for n in mt.get_mprocess_names_type1() + mt.get_mprocess_names_type2()]
+
+
+def check_mprocess(item, ctx):
+    from quara.objects import mprocess_typical as mt
+    from quara.objects import povm_typical as pt
+    from quara.objects import qoperation_typical as qt
+
+    name, sys_ = item["name"], item["sys"]
+    base, typ = name.split("-")
+    d = R.dim_of(sys_)
+    t = tol_of(sys_)
+    c_sys = csys(sys_)
+    gen = mt.generate_mprocess_object_from_mprocess_name_object_name
+    ref = R.mprocess_kraus(name)
+    m = len(ref)
+    ctx.label(sys_, typ, f"outcomes:{m}", "multi_kraus" if any(len(k) > 1 for k in ref) else "single_kraus")
+    ctx.nontrivial(True)
+
+    ks = gen(name, "set_kraus_matrices")
+    ok = ctx.check(isinstance(ks, list) and len(ks) == m and all(as_list_of_arrays(k, len(r)) for k, r in zip(ks, ref)),
+                   "mprocess:kraus_nesting", lambda: repr([len(k) for k in ks]) if isinstance(ks, list) else repr(type(ks)))
+    if not ok:
+        return
+    for x in range(m):
+        for j in range(len(ref[x])):
+            ctx.close(ks[x][j], ref[x][j], t, "mprocess:textbook_kraus", f"outcome {x} kraus {j}")
+    vref = R.mprocess_vectors(name)
+    if vref is not None:
+        vs = gen(name, "set_pure_state_vectors")
+        if ctx.check(isinstance(vs, list) and len(vs) == m and all(as_list_of_arrays(v, len(r)) for v, r in zip(vs, vref)),
+                     "mprocess:vectors_nesting"):
+            for x in range(m):
+                for j in range(len(vref[x])):
+                    ctx.close(np.outer(vs[x][j], np.conj(vs[x][j])), ks[x][j], t, "mprocess:kraus_is_projector_of_vector", f"{x},{j}")
+    else:
+        ctx.raises(ValueError, lambda: gen(name, "set_pure_state_vectors"), "mprocess:no_vectors_for_kraus_defined_names")
+    hss = gen(name, "hss", c_sys)
+    if not ctx.check(as_list_of_arrays(hss, m) and all(is_real_array(h) for h in hss), "mprocess:hss_real_list"):
+        return
+    for x in range(m):
+        ctx.close(hss[x], R.hs_of_kraus(sys_, ks[x]).real, t, "mprocess:hs_is_refmodel_hs_of_kraus", f"outcome {x}")
+    mp = gen(name, "mprocess", c_sys)
+    ctx.check(type(mp).__name__ == "MProcess", "mprocess:type")
+    ctx.equal(int(mp.num_outcomes), m, "mprocess:num_outcomes")
+    for x in range(m):
+        ctx.close(mp.hss[x], hss[x], 0.0, "mprocess:object_hss_equal_hss_form", f"outcome {x}")
+    ctx.check(bool(mp.is_physical()), "mprocess:is_physical")
+    # reference physicality: the sum is trace preserving, every outcome map completely positive
+    n = d * d
+    e0 = np.zeros(n)
+    e0[0] = 1
+    ctx.close(sum(mp.hss)[0], e0, t, "mprocess:ref_sum_tp")
+    for x in range(m):
+        ctx.leq(-rm.min_eig(R.choi_of_hs(sys_, mp.hss[x])), 0.0, t * d, "mprocess:ref_cp", f"outcome {x}")
+    # induced POVM
+    pv = mp.to_povm()
+    pm = pv.matrices()
+    e_ref = [sum(k.conj().T @ k for k in ref[x]) for x in range(m)]
+    if ctx.check(as_list_of_arrays(pm, m), "mprocess:to_povm_length"):
+        for x in range(m):
+            ctx.close(pm[x], e_ref[x], t, "mprocess:to_povm_is_sum_kdagger_k", f"outcome {x}")
+        if base in ("xxparity", "zzparity"):
+            named = getattr(pt, f"get_povm_{base}_povm_matrices")()
+        else:
+            named = pt.generate_povm_matrices_from_name(base)
+        if ctx.check(as_list_of_arrays(named, m), "mprocess:named_povm_length"):
+            for x in range(m):
+                ctx.close(pm[x], named[x], t, "mprocess:to_povm_is_povm_of_same_name", f"outcome {x}")
+    mp2 = qt.generate_qoperation(mode="mprocess", name=name, c_sys=c_sys)
+    for x in range(m):
+        ctx.close(mp2.hss[x], mp.hss[x], 0.0, "mprocess:dispatcher_same", f"outcome {x}")
+
+
+# ----------------------------------------------------------------------------- facet: state ensembles
+def ensemble_items(tier):
+    from quara.objects import state_ensemble_typical as se
+
+    return [{"name": n} for n in se.get_state_ensemble_names()]
+
+
+def known_ensemble_without_constructor(case):
+    """C17-F2: catalogued ensemble names for which no get_state_ensemble_<name>_elements exists."""
+    return case.get("name") in ("x1", "y0", "y1", "a")
+
+
+def check_ensemble(item, ctx):
+    from quara.objects import qoperation_typical as qt
+    from quara.objects import state_ensemble_typical as se
+
+    name = item["name"]
+    c_sys = csys("1q")
+    ctx.label("ensemble")
+    ctx.nontrivial(True)
+    ens, err = try_call(lambda: se.generate_state_ensemble_object_from_state_ensemble_name_object_name(name, "state_ensemble", c_sys))
+    if not ctx.check(err is None, "ensemble:can_be_generated", lambda: f"{name}: {type(err).__name__}: {err}"):
+        ctx.label("not_generatable")
+        return
+    ctx.check(type(ens).__name__ == "StateEnsemble", "ensemble:type")
+    ps = np.asarray(ens.prob_dist.ps, dtype=float)
+    ctx.equal(len(ens.states), int(ps.size), "ensemble:lengths")
+    ctx.check(bool(np.all(ps >= 0)), "ensemble:probabilities_nonnegative")
+    ctx.close(ps.sum(), 1.0, 1e-12, "ensemble:probabilities_sum_one")
+    for i, s in enumerate(ens.states):
+        ctx.check(bool(s.is_physical()), "ensemble:state_is_physical", f"state {i}")
+        physical_state(ctx, "1q", s.vec, "ensemble")
+    ens2 = qt.generate_qoperation_object(mode="state_ensemble", name=name, object_name="state_ensemble", c_sys=c_sys)
+    ctx.close(np.asarray(ens2.prob_dist.ps, dtype=float), ps, 0.0, "ensemble:dispatcher_same_probabilities")
+    for a, b in zip(ens2.states, ens.states):
+        ctx.close(a.vec, b.vec, 0.0, "ensemble:dispatcher_same_states")
+
+
+# ----------------------------------------------------------------------------- facet: legacy named constructors, testers
+LEGACY_GATES_1Q = {"get_i": "identity", "get_x": "x", "get_y": "y", "get_z": "z", "get_h": "hadamard", "get_root_x": "x90",
+                   "get_root_y": "y90", "get_s": "phase", "get_sdg": "phase_daggered", "get_t": "piover8"}
+LEGACY_STATES_1Q = {"get_x0_1q": "x0", "get_x1_1q": "x1", "get_y0_1q": "y0", "get_y1_1q": "y1", "get_z0_1q": "z0", "get_z1_1q": "z1"}
+LEGACY_STATE_TYPICAL_1Q = {"get_state_" + k + "_1q": k for k in ("x0", "x1", "y0", "y1", "z0", "z1", "a")}
+
+
+def legacy_items(tier):
+    items = []
+    for bk in ("normal", "hermitian"):
+        items += [{"kind": "gate1q", "fn": f, "basis": bk} for f in LEGACY_GATES_1Q]
+        items += [{"kind": "gate2q", "fn": f, "basis": bk} for f in ("get_cnot:0", "get_cnot:1", "get_cz", "get_swap", "get_i")]
+        items += [{"kind": "state1q", "module": "state", "fn": f, "basis": bk} for f in LEGACY_STATES_1Q]
+        items += [{"kind": "state1q", "module": "state_typical", "fn": f, "basis": bk} for f in LEGACY_STATE_TYPICAL_1Q]
+        items += [{"kind": "state2q", "module": m, "fn": f, "basis": bk} for m, f in (("state", "get_bell_2q"), ("state_typical", "get_state_bell_2q"))]
+        items += [{"kind": "povm1q", "fn": f"get_{a}_povm", "basis": bk} for a in "xyz"]
+        items += [{"kind": "povm2q", "fn": f"get_{a}{b}_povm", "basis": bk} for a in "xyz" for b in "xyz"]
+    items += [{"kind": "tester", "what": w, "sys": s} for w in ("states", "povms") for s in ("1q", "2q", "qutrit", "2qutrit")]
+    return items
+
+
+def _legacy_csys(n, kind):
+    from harness import build
+
+    return build.c_sys_for("1q" if n == 1 else "2q", kind=kind)
+
+
+def _q_basis(c_sys):
+    from harness import build
+
+    b = build.quara_basis_matrices(c_sys)
+    if not rm.is_orthonormal(b):
+        raise AssertionError("legacy facet expects an orthonormal basis")
+    return b
+
+
+def check_legacy(item, ctx):
+    kind = item["kind"]
+    if kind == "tester":
+        return _check_tester(item, ctx)
+    import quara.objects.gate as qgate
+    import quara.objects.povm as qpovm
+    import quara.objects.state as qstate
+    from quara.objects import gate_typical as gt
+    from quara.objects import povm_typical as pt
+    from quara.objects import state_typical as stt
+
+    bk = item["basis"]
+    n = 2 if kind.endswith("2q") else 1
+    sys_ = "2q" if n == 2 else "1q"
+    c_sys = _legacy_csys(n, bk)
+    qb = _q_basis(c_sys)
+    t = tol_of(sys_)
+    ctx.label(kind, "basis:" + bk)
+    ctx.nontrivial(item["fn"] != "get_i")
+    if kind.startswith("gate"):
+        fn = item["fn"]
+        if fn.startswith("get_cnot"):
+            k = int(fn.split(":")[1])
+            g = qgate.get_cnot(c_sys, c_sys.elemental_systems[k])
+            name, ids = "cx", [k, 1 - k]
+        else:
+            g = getattr(qgate, fn)(c_sys)
+            name = LEGACY_GATES_1Q.get(fn) if n == 1 else {"get_cz": "cz", "get_swap": "swap", "get_i": "identity"}[fn]
+            ids = [0, 1] if n == 2 else None
+        ctx.check(type(g).__name__ == "Gate", "legacy:gate_type")
+        u_ref = R.unitary(name, sys_, ids)
+        ctx.close(g.hs, rm.hs_from_kraus(qb, [u_ref]).real, t, "legacy:gate_textbook_hs", f"{fn} -> {name}")
+        ctx.check(bool(g.is_physical()), "legacy:gate_is_physical")
+        if bk == "normal":  # the catalogue gate matrices are defined on the normalised Pauli basis only
+            cat = gt.generate_gate_from_gate_name(name, c_sys, ids)
+            ctx.close(g.hs, cat.hs, t, "legacy:gate_equals_catalogue_gate", f"{fn} vs {name}")
+        return
+    if kind.startswith("state"):
+        mod = qstate if item["module"] == "state" else stt
+        s = getattr(mod, item["fn"])(c_sys)
+        name = "bell_phi_plus" if n == 2 else (LEGACY_STATES_1Q.get(item["fn"]) or LEGACY_STATE_TYPICAL_1Q[item["fn"]])
+        ctx.check(type(s).__name__ == "State", "legacy:state_type")
+        rho_ref = R.proj(R.ket(name, sys_))
+        ctx.close(s.vec, rm.vec(qb, rho_ref).real, t, "legacy:state_textbook_vec", f"{item['fn']} -> {name}")
+        ctx.check(bool(s.is_physical()), "legacy:state_is_physical")
+        cat = stt.generate_state_from_name(c_sys, name)
+        ctx.close(s.vec, cat.vec, t, "legacy:state_equals_catalogue_state", f"{item['fn']} vs {name}")
+        return
+    # povms
+    p = getattr(qpovm, item["fn"])(c_sys)
+    axes = item["fn"][4:-5]
+    name = "_".join(axes)
+    ref, _ = R.povm(name)
+    ctx.check(type(p).__name__ == "Povm", "legacy:povm_type")
+    if ctx.check(len(p.vecs) == len(ref), "legacy:povm_num_outcomes"):
+        for i, e in enumerate(ref):
+            ctx.close(p.vecs[i], rm.vec(qb, e).real, t, "legacy:povm_textbook_vecs", f"{item['fn']} element {i}")
+        ctx.check(bool(p.is_physical()), "legacy:povm_is_physical")
+        cat = pt.generate_povm_from_name(name, c_sys)
+        for i in range(len(ref)):
+            ctx.close(p.vecs[i], cat.vecs[i], t, "legacy:povm_equals_catalogue_povm", f"{item['fn']} element {i}")
+
+
+def _check_tester(item, ctx):
+    from quara.objects import tester_typical as tt
+
+    sys_, what = item["sys"], item["what"]
+    mode, num = R.SYS[sys_]
+    one = "1q" if mode == "qubit" else "qutrit"
+    c_sys = csys(sys_)
+    t = tol_of(sys_)
+    ctx.label("tester", what, sys_)
+    ctx.nontrivial(num > 1)
+    if what == "states":
+        names = ["x0", "y0", "z0", "z1"] if mode == "qubit" else ["01z0", "12z0", "02z1", "01x0", "01y0", "12x0", "12y0", "02x0", "02y0"]
+        got = tt.generate_tester_states(c_sys, names)
+        combos = list(itertools.product(names, repeat=num))
+        if ctx.check(isinstance(got, list) and len(got) == len(combos), "tester:states_count"):
+            for s, combo in zip(got, combos):
+                rho = R.proj(R._kron_all([R.ket(nm, one) for nm in combo]))
+                ctx.close(s.vec, R.vec_of(sys_, rho).real, t, "tester:state_is_product_of_named_states", "_".join(combo))
+                ctx.check(bool(s.is_physical()), "tester:state_is_physical")
+    else:
+        names = ["x", "y", "z"] if mode == "qubit" else ["01x3", "01y3", "z3", "12x3", "12y3", "02x3", "02y3"]
+        got = tt.generate_tester_povms(c_sys, names)
+        combos = list(itertools.product(names, repeat=num))
+        if ctx.check(isinstance(got, list) and len(got) == len(combos), "tester:povms_count"):
+            for p, combo in zip(got, combos):
+                ref, _ = R.povm("_".join(combo))
+                if ctx.check(len(p.vecs) == len(ref), "tester:povm_num_outcomes"):
+                    for i, e in enumerate(ref):
+                        ctx.close(p.vecs[i], R.vec_of(sys_, e).real, t, "tester:povm_is_product_of_named_povms", "_".join(combo))
+                ctx.check(bool(p.is_physical()), "tester:povm_is_physical")
+
+
+# ----------------------------------------------------------------------------- facet: named bases and generate_composite_system
+def bases_items(tier):
+    items = []
+    for dim in (2, 3, 4):
+        for mode in ("row_major", "column_major"):
+            items.append({"fn": "get_comp_basis", "kw": {"dim": dim, "mode": mode}})
+        items.append({"fn": "get_hermitian_basis", "kw": {"dim": dim}})
+        items.append({"fn": "get_normalized_hermitian_basis", "kw": {"dim": dim}})
+    for n in (1, 2, 3):
+        items.append({"fn": "get_pauli_basis", "kw": {"n_qubit": n}})
+        items.append({"fn": "get_normalized_pauli_basis", "kw": {"n_qubit": n}})
+    items.append({"fn": "get_gell_mann_basis", "kw": {}})
+    items.append({"fn": "get_normalized_gell_mann_basis", "kw": {}})
+    for n, dim in ((1, 2), (1, 3), (1, 4), (1, 5), (2, 2), (2, 3), (2, 4)):
+        items.append({"fn": "get_generalized_gell_mann_basis", "kw": {"n_qubit": n, "dim": dim}})
+        items.append({"fn": "get_normalized_generalized_gell_mann_basis", "kw": {"n_qubit": n, "dim": dim}})
+    for mode, nums in (("qubit", (1, 2, 3, 4)), ("qutrit", (1, 2, 3))):
+        for num in nums:
+            for ids in (None, "reversed", "gapped"):
+                for sparse in (False, True):
+                    items.append({"fn": "generate_composite_system", "mode": mode, "num": num, "ids": ids, "is_sparse": sparse})
+    return items
+
+
+def _arrays(basis):
+    return [np.asarray(b.toarray() if hasattr(b, "toarray") else b, dtype=complex) for b in basis]
+
+
+def _ref_named_basis(fn, kw):
+    """(reference matrices or None, advertised facts) of a named basis, from the definitions."""
+    if fn == "get_comp_basis":
+        return rm.comp_basis(kw["dim"], kw["mode"]), dict(orth=True, normal=True, herm=False, id0=False)
+    if fn == "get_pauli_basis":
+        return rm.kron_bases([rm.pauli_1q(False)] * kw["n_qubit"]), dict(orth=True, normal=False, herm=True, id0=True, norm2=2.0 ** kw["n_qubit"])
+    if fn == "get_normalized_pauli_basis":
+        return rm.kron_bases([rm.pauli_1q(True)] * kw["n_qubit"]), dict(orth=True, normal=True, herm=True, id0=True)
+    if fn == "get_hermitian_basis":
+        return rm.hermitian_eij_basis(kw["dim"], False), dict(orth=True, normal=False, herm=True, id0=False)
+    if fn == "get_normalized_hermitian_basis":
+        return rm.hermitian_eij_basis(kw["dim"], True), dict(orth=True, normal=True, herm=True, id0=False)
+    if fn == "get_gell_mann_basis":
+        return rm.gell_mann(False), dict(orth=True, normal=False, herm=True, id0=True, norm2=2.0)
+    if fn == "get_normalized_gell_mann_basis":
+        return rm.gell_mann(True), dict(orth=True, normal=True, herm=True, id0=True)
+    n, dim = kw["n_qubit"], kw["dim"]
+    normalized = fn == "get_normalized_generalized_gell_mann_basis"
+    ref = None
+    if dim == 2:
+        ref = rm.kron_bases([rm.pauli_1q(normalized)] * n)
+    elif dim == 3:  # the 2-qutrit gate catalogue relies on this basis being the Gell-Mann product basis of the composite system
+        ref = rm.kron_bases([rm.gell_mann(normalized)] * n)
+    facts = dict(orth=True, normal=normalized, herm=True, id0=True)
+    if not normalized:
+        facts["norm2"] = 2.0 ** n
+    return ref, facts
+
+
+def check_bases(item, ctx):
+    from quara.objects import matrix_basis as mb
+
+    fn = item["fn"]
+    if fn == "generate_composite_system":
+        return _check_composite_system(item, ctx)
+    kw = item["kw"]
+    basis = getattr(mb, fn)(**kw)
+    arrs = _arrays(basis)
+    d = arrs[0].shape[0]
+    ref, facts = _ref_named_basis(fn, kw)
+    t = rm.algebraic_tol(d)
+    ctx.label(fn, f"dim:{d}")
+    ctx.nontrivial(d > 2 or fn != "get_comp_basis")
+    ctx.equal(len(arrs), d * d, "basis:size")
+    ctx.equal(int(basis.dim), d, "basis:dim")
+    if ref is not None and ctx.check(len(ref) == len(arrs), "basis:reference_size"):
+        for a, (x, y) in enumerate(zip(arrs, ref)):
+            ctx.close(x, y, t, "basis:elements_equal_definition", f"{fn}{kw} element {a}")
+    m = np.array([x.reshape(-1) for x in arrs])
+    gram = m.conj() @ m.T
+    off = gram - np.diag(np.diag(gram))
+    ctx.close(off, np.zeros_like(off), t, "basis:orthogonal_as_advertised")
+    diag = np.real(np.diag(gram))
+    if facts["normal"]:
+        ctx.close(diag, np.ones(d * d), t, "basis:normalised_as_advertised")
+    elif "norm2" in facts:
+        ctx.close(diag, facts["norm2"] * np.ones(d * d), t * facts["norm2"], "basis:stated_norm")
+    herm = max(rm.hermiticity_defect(x) for x in arrs) <= t
+    ctx.check(herm == facts["herm"], "basis:hermitian_as_advertised")
+    id0 = bool(np.max(np.abs(arrs[0] - arrs[0][0, 0] * np.eye(d))) <= t and abs(arrs[0][0, 0]) > t)
+    ctx.check(id0 == facts["id0"], "basis:identity_first_as_advertised")
+    if facts["id0"]:
+        ctx.close(np.array([np.trace(x) for x in arrs[1:]]), np.zeros(d * d - 1), t, "basis:traceless_rest")
+        if facts["normal"]:
+            ctx.close(arrs[0], np.eye(d) / np.sqrt(d), t, "basis:first_is_normalised_identity")
+    # quara's own verdicts agree with the facts
+    ctx.check(bool(basis.is_orthogonal()) is True, "basis:verdict_is_orthogonal")
+    ctx.check(bool(basis.is_normal()) == bool(np.max(np.abs(diag - 1)) <= t), "basis:verdict_is_normal")
+    ctx.check(bool(basis.is_hermitian()) == facts["herm"], "basis:verdict_is_hermitian")
+    ctx.check(bool(basis.is_0thpropI()) == facts["id0"], "basis:verdict_is_0thpropI")
+    # (MatrixBasis.is_trace_less compares the float trace with 0 exactly and answers False for the dim-4 generalised
+    #  Gell-Mann basis, whose last diagonal element has trace 1 ulp; no caller uses it and the property is about the basis,
+    #  which is traceless to rounding (oracle basis:traceless_rest) - recorded in notes/c17.md, not asserted.)
+
+
+def _check_composite_system(item, ctx):
+    from quara.objects.composite_system_typical import generate_composite_system
+
+    mode, num, sparse = item["mode"], item["num"], item["is_sparse"]
+    ids = {None: None, "reversed": list(range(num))[::-1], "gapped": [3 * k + 2 for k in range(num)][::-1]}[item["ids"]]
+    dloc = 2 if mode == "qubit" else 3
+    d = dloc ** num
+    ctx.label("generate_composite_system", mode, f"num:{num}", f"ids:{item['ids']}", f"sparse:{sparse}")
+    ctx.nontrivial(num > 1)
+    c_sys = generate_composite_system(mode, num, ids_esys=ids, is_sparse=sparse)
+    ctx.equal(int(c_sys.dim), d, "csys:dim")
+    ctx.equal(int(c_sys.num_e_sys), num, "csys:num_e_sys")
+    ctx.equal([e.name for e in c_sys.elemental_systems], sorted(ids) if ids is not None else list(range(num)), "csys:names_ascending")
+    ctx.equal([int(c_sys.dim_e_sys(i)) for i in range(num)], [dloc] * num, "csys:local_dims")
+    ctx.check(c_sys.is_orthonormal_hermitian_0thprop_identity is True, "csys:advertised_flag")
+    if d <= 16:
+        arrs = _arrays(c_sys.basis())
+        ref = rm.kron_bases([rm.pauli_1q(True) if dloc == 2 else rm.gell_mann(True)] * num)
+        t = rm.algebraic_tol(d)
+        if ctx.check(len(arrs) == len(ref), "csys:basis_size"):
+            for a, (x, y) in enumerate(zip(arrs, ref)):
+                ctx.close(x, y, t, "csys:basis_is_product_of_normalised_local_bases", f"element {a}")
+        comp = _arrays(c_sys.comp_basis())
+        refc = rm.comp_basis(d)
+        if ctx.check(len(comp) == len(refc), "csys:comp_basis_size"):
+            for a, (x, y) in enumerate(zip(comp, refc)):
+                ctx.close(x, y, 0.0, "csys:comp_basis_row_major", f"element {a}")
+    loc = type(c_sys.elemental_systems[0].basis).__name__
+    small = (mode == "qubit" and num <= 3) or (mode == "qutrit" and num <= 2)
+    ctx.equal(loc, "SparseMatrixBasis" if (sparse or not small) else "MatrixBasis", "csys:local_basis_class")
+
+
+# ----------------------------------------------------------------------------- facet: truth table
+def truth_items(tier):
+    return [{"sys": s, "name": g, "ids": ids, "in": a, "out": b} for s, g, ids, a, b in R.TRUTH]
+
+
+def check_truth(item, ctx):
+    from quara.objects import gate_typical as gt
+    from quara.objects import state_typical as stt
+    from quara.objects.operators import compose_qoperations
+
+    sys_, name, ids, a, b = item["sys"], item["name"], item["ids"], item["in"], item["out"]
+    t = tol_of(sys_)
+    rho_in, rho_out = R.proj(R.ket(a, sys_)), R.proj(R.ket(b, sys_))
+    u_ref = R.unitary(name, sys_, ids)
+    if not np.allclose(u_ref @ rho_in @ u_ref.conj().T, rho_out, atol=1e-12):
+        raise AssertionError(f"truth table entry is inconsistent with the table of unitaries: {item}")
+    multi = sys_ in ("2q", "3q") and name != "identity"
+    ctx.label(sys_, name, "moved" if a != b else "fixed_point")
+    ctx.nontrivial(a != b)
+    c_sys = csys(sys_)
+    g = gt.generate_gate_from_gate_name(name, c_sys, ids)
+    s_in = stt.generate_state_from_name(c_sys, a)
+    s_out = stt.generate_state_from_name(c_sys, b)
+    res = compose_qoperations(g, s_in)
+    ctx.check(type(res).__name__ == "State", "truth:result_type")
+    oracle = "truth:placement:output_state" if multi else "truth:output_state"
+    ctx.close(res.vec, R.vec_of(sys_, rho_out).real, t, oracle, f"{name}{ids or ''} . {a} should be {b}")
+    ctx.close(res.vec, s_out.vec, t, oracle, f"{name}{ids or ''} . {a} should be the catalogue state {b}")
+    ctx.check(bool(res.is_physical()), "truth:result_is_physical")
+
+
+# ----------------------------------------------------------------------------- facet: catalogues (names and counts)
+def catalogue_items(tier):
+    return [{"catalogue": c} for c in ("state", "povm", "gate", "gate_2qutrit", "mprocess", "ensemble", "object_names")]
+
+
+def _same_names(ctx, got, exp, oracle):
+    ctx.check(isinstance(got, list) and len(got) == len(set(got)), oracle + ":no_duplicates")
+    miss, extra = sorted(set(exp) - set(got))[:5], sorted(set(got) - set(exp))[:5]
+    ctx.check(not miss and not extra, oracle + ":names", f"missing {miss} unexpected {extra}")
+    ctx.equal(len(got), len(exp), oracle + ":count")
+
+
+def check_catalogue(item, ctx):
+    from quara.objects import gate_typical as gt
+    from quara.objects import mprocess_typical as mt
+    from quara.objects import povm_typical as pt
+    from quara.objects import qoperation_typical as qt
+    from quara.objects import state_ensemble_typical as se
+    from quara.objects import state_typical as stt
+
+    c = item["catalogue"]
+    ctx.label(c)
+    ctx.nontrivial(True)
+    if c == "state":
+        exp = R.expected_state_names()
+        for k, f in (("1q", stt.get_state_names_1qubit), ("2q", stt.get_state_names_2qubit), ("3q", stt.get_state_names_3qubit),
+                     ("qutrit", stt.get_state_names_1qutrit), ("2qutrit", stt.get_state_names_2qutrit)):
+            _same_names(ctx, f(), exp[k], f"catalogue:state:{k}")
+        _same_names(ctx, stt.get_state_names(), sum(exp.values(), []), "catalogue:state:all")
+        ctx.equal(len(stt.get_state_names()), 749, "catalogue:state:749")
+    elif c == "povm":
+        exp = R.expected_povm_names()
+        for k, f in (("1q", pt.get_povm_names_1qubit), ("2q", pt.get_povm_names_2qubit), ("3q", pt.get_povm_names_3qubit),
+                     ("qutrit", pt.get_povm_names_1qutrit), ("2qutrit", pt.get_povm_names_2qutrit)):
+            _same_names(ctx, f(), exp[k], f"catalogue:povm:{k}")
+        _same_names(ctx, pt.get_povm_names(), sum(exp.values(), []), "catalogue:povm:all")
+        ctx.equal(len(pt.get_povm_names()), 112, "catalogue:povm:112")
+    elif c == "gate":
+        exp = R.expected_gate_names()
+        for k, f in (("1q", gt.get_gate_names_1qubit), ("2q", gt.get_gate_names_2qubit), ("3q", gt.get_gate_names_3qubit),
+                     ("qutrit", gt.get_gate_names_1qutrit)):
+            _same_names(ctx, f(), exp[k], f"catalogue:gate:{k}")
+        _same_names(ctx, gt.get_gate_names_2qubit_asymmetric(), ["cx", "zx90"], "catalogue:gate:2q_asymmetric")
+        _same_names(ctx, gt.get_gate_names_3qubit_asymmetric(), ["toffoli", "fredkin"], "catalogue:gate:3q_asymmetric")
+    elif c == "gate_2qutrit":
+        exp = R.expected_gate_names()
+        _same_names(ctx, gt.get_gate_names_2qutrit_single_base_matrix(), exp["2qutrit_single"], "catalogue:gate:2qutrit_single")
+        _same_names(ctx, gt.get_gate_names_2qutrit_two_base_matrices(), exp["2qutrit_two"], "catalogue:gate:2qutrit_two")
+        ctx.equal(len(gt.get_gate_names_2qutrit()), 39204, "catalogue:gate:39204")
+        allg = ["identity"] + exp["1q"] + exp["2q"] + exp["3q"] + exp["qutrit"] + exp["2qutrit_single"] + exp["2qutrit_two"]
+        _same_names(ctx, gt.get_gate_names(), allg, "catalogue:gate:all")
+    elif c == "mprocess":
+        _same_names(ctx, mt.get_mprocess_names_type1(), R.EXPECTED_MPROCESS_TYPE1, "catalogue:mprocess:type1")
+        _same_names(ctx, mt.get_mprocess_names_type2(), R.EXPECTED_MPROCESS_TYPE2, "catalogue:mprocess:type2")
+    elif c == "ensemble":
+        _same_names(ctx, se.get_state_ensemble_names(), R.expected_state_names()["1q"], "catalogue:ensemble")
+    else:
+        _same_names(ctx, pt.get_povm_object_names(), ["pure_state_vectors", "matrices", "vectors", "povm"], "catalogue:object_names:povm")
+        _same_names(ctx, qt.get_gate_object_names(), ["unitary_mat", "gate_mat", "gate"], "catalogue:object_names:gate")
+        _same_names(ctx, mt.get_mprocess_object_names(), ["set_pure_state_vectors", "set_kraus_matrices", "hss", "mprocess"], "catalogue:object_names:mprocess")
+        _same_names(ctx, qt.get_effective_lindbladian_object_names(),
+                    ["hamiltonian_vec", "hamiltonian_mat", "effective_lindbladian_mat", "effective_lindbladian"], "catalogue:object_names:lindbladian")
+
+
+# ----------------------------------------------------------------------------- facet: generic dispatcher (qoperation_typical) forms
+def dispatch_items(tier):
+    items = [{"mode": "povm", "name": n, "sys": s, "form": f}
+             for s, n in (("1q", "x"), ("2q", "bell"), ("2q", "x_y"), ("qutrit", "z2"), ("qutrit", "01x3"))
+             for f in ("matrices", "vectors", "povm", "pure_state_vectors")]
+    items += [{"mode": "mprocess", "name": n, "sys": s, "form": f}
+              for s, n in (("1q", "x-type1"), ("2q", "bell-type1"), ("qutrit", "z2-type2"))
+              for f in ("set_kraus_matrices", "hss", "mprocess")]
+    return items
+
+
+def known_dispatcher_povm_vectors(case):
+    """C17-F3: qoperation_typical.generate_povm_object cannot pass the basis the 'vectors' form needs."""
+    return case.get("mode") == "povm" and case.get("form") == "vectors"
+
+
+def _flat(x):
+    if isinstance(x, np.ndarray):
+        return [x]
+    if isinstance(x, (list, tuple)):
+        return [a for e in x for a in _flat(e)]
+    if hasattr(x, "vecs"):
+        return list(x.vecs)
+    if hasattr(x, "hss"):
+        return list(x.hss)
+    raise AssertionError(f"unexpected form {type(x)}")
+
+
+def check_dispatch(item, ctx):
+    """generate_qoperation_object(mode, name, object_name, c_sys=...) yields the same thing as the catalogue dispatcher."""
+    from quara.objects import mprocess_typical as mt
+    from quara.objects import povm_typical as pt
+    from quara.objects import qoperation_typical as qt
+
+    mode, name, sys_, form = item["mode"], item["name"], item["sys"], item["form"]
+    c_sys = csys(sys_)
+    ctx.label(mode, form)
+    ctx.nontrivial(True)
+    if mode == "povm":
+        if form == "pure_state_vectors" and name == "z2":
+            ctx.raises(ValueError, lambda: qt.generate_qoperation_object(mode="povm", name=name, object_name=form, c_sys=c_sys), "dispatch:not_rank1")
+            return
+        direct = pt.generate_povm_object_from_povm_name_object_name(name, form, c_sys=c_sys, basis=c_sys.basis())
+    else:
+        direct = mt.generate_mprocess_object_from_mprocess_name_object_name(name, form, c_sys)
+    got, err = try_call(lambda: qt.generate_qoperation_object(mode=mode, name=name, object_name=form, c_sys=c_sys))
+    if not ctx.check(err is None, "dispatch:listed_form_can_be_generated", lambda: f"{mode} {name} {form}: {type(err).__name__}: {err}"):
+        return
+    a, b = _flat(got), _flat(direct)
+    if ctx.check(len(a) == len(b), "dispatch:same_length"):
+        for x, y in zip(a, b):
+            ctx.close(x, y, 0.0, "dispatch:same_as_catalogue_dispatcher", f"{mode} {name} {form}")
+
+
+# ----------------------------------------------------------------------------- facet: negative (names outside the catalogues)
+MUTATIONS = ("upper", "capital", "sep", "suffix_word", "suffix_char", "prefix_char", "space", "doubled_sep", "empty")
+
+
+def mutate(name, kind):
+    if kind == "upper":
+        return name.upper()
+    if kind == "capital":
+        return name[:1].upper() + name[1:]
+    if kind == "sep":
+        if "_" in name:
+            return name.replace("_", "-")
+        if "-" in name:
+            return name.replace("-", "_")
+        return name + "-"
+    if kind == "suffix_word":
+        return name + "_q"
+    if kind == "suffix_char":
+        return name + "q"
+    if kind == "prefix_char":
+        return "q" + name
+    if kind == "space":
+        return name + " "
+    if kind == "doubled_sep":
+        return name.replace("_", "__") if "_" in name else name + "_"
+    if kind == "empty":
+        return ""
+    raise ValueError(kind)
+
+
+def _negative_bases():
+    """(catalogue, system, valid name, ids) seeds of the mutations."""
+    seeds = []
+    st = R.expected_state_names()
+    for s in ("1q", "qutrit"):
+        seeds += [("state", s, n, None) for n in st[s]]
+    seeds += [("state", "2q", n, None) for n in st["2q"][:4] + st["2q"][4::7]]
+    seeds += [("state", "3q", n, None) for n in st["3q"][:2] + st["3q"][2::41]]
+    seeds += [("state", "2qutrit", n, None) for n in st["2qutrit"][:1] + st["2qutrit"][1::37]]
+    pv = R.expected_povm_names()
+    seeds += [("povm", s, n, None) for s in ("1q", "2q", "qutrit") for n in pv[s]]
+    seeds += [("povm", "3q", n, None) for n in pv["3q"][::5]] + [("povm", "2qutrit", n, None) for n in pv["2qutrit"][::7]]
+    g = R.expected_gate_names()
+    for cat in ("gate", "lindbladian"):
+        seeds += [(cat, "1q", "identity", None)]
+        seeds += [(cat, "1q", n, None) for n in g["1q"]] + [(cat, "2q", n, [0, 1]) for n in g["2q"]]
+        seeds += [(cat, "3q", n, [0, 1, 2]) for n in g["3q"]] + [(cat, "qutrit", n, None) for n in g["qutrit"][::2]]
+        seeds += [(cat, "2qutrit", n, None) for n in g["2qutrit_single"][::33] + g["2qutrit_two"][::6001]]
+    seeds += [("mprocess", R.MPROCESS_SYS[n.split("-")[0]], n, None) for n in R.EXPECTED_MPROCESS_TYPE1 + R.EXPECTED_MPROCESS_TYPE2]
+    seeds += [("ensemble", "1q", n, None) for n in ("z0", "z1", "x0")]
+    return seeds
+
+
+_FORMS = {
+    "state": ["pure_state_vector", "density_mat", "density_matrix_vector", "state"],
+    "povm": ["pure_state_vectors", "matrices", "vectors", "povm"],
+    "gate": ["unitary_mat", "gate_mat", "gate"],
+    "lindbladian": ["hamiltonian_vec", "hamiltonian_mat", "effective_lindbladian_mat", "effective_lindbladian"],
+    "mprocess": ["set_pure_state_vectors", "set_kraus_matrices", "hss", "mprocess"],
+    "ensemble": ["state_ensemble"],
+}
+BAD_FORMS = ["", "State", "object", "unitary", "gate_matrix", "vector", "povms", "hs"]
+
+
+def negative_items(tier):
+    items = []
+    for cat, s, n, ids in _negative_bases():
+        for k in MUTATIONS:
+            items.append({"catalogue": cat, "sys": s, "valid": n, "ids": ids, "mutation": k})
+    for cat in _FORMS:
+        s, n, ids = next((s, n, ids) for c, s, n, ids in _negative_bases() if c == cat and n != "identity")
+        for bf in BAD_FORMS:
+            if bf not in _FORMS[cat]:
+                items.append({"catalogue": cat, "sys": s, "valid": n, "ids": ids, "mutation": "object_name", "form": bf})
+    return items
+
+
+_VALID = {}
+
+
+def _valid_names(cat):
+    if cat not in _VALID:
+        from quara.objects import gate_typical as gt
+        from quara.objects import mprocess_typical as mt
+        from quara.objects import povm_typical as pt
+        from quara.objects import state_ensemble_typical as se
+        from quara.objects import state_typical as stt
+
+        _VALID[cat] = set({
+            "state": stt.get_state_names, "povm": pt.get_povm_names, "gate": gt.get_gate_names, "lindbladian": gt.get_gate_names,
+            "mprocess": lambda: mt.get_mprocess_names_type1() + mt.get_mprocess_names_type2(),
+            "ensemble": se.get_state_ensemble_names,
+        }[cat]())
+    return _VALID[cat]
+
+
+def _dispatch_catalogue(cat, name, form, sys_, ids):
+    from quara.objects import effective_lindbladian_typical as elt
+    from quara.objects import gate_typical as gt
+    from quara.objects import mprocess_typical as mt
+    from quara.objects import povm_typical as pt
+    from quara.objects import state_ensemble_typical as se
+    from quara.objects import state_typical as stt
+
+    c_sys = csys(sys_)
+    dims = R.dims_of(sys_)
+    if cat == "state":
+        return stt.generate_state_object_from_state_name_object_name(name, form, c_sys)
+    if cat == "povm":
+        return pt.generate_povm_object_from_povm_name_object_name(name, form, c_sys=c_sys, basis=c_sys.basis())
+    if cat == "gate":
+        return gt.generate_gate_object_from_gate_name_object_name(name, form, dims=dims, ids=ids, c_sys=c_sys)
+    if cat == "lindbladian":
+        return elt.generate_effective_lindbladian_object_from_gate_name_object_name(name, form, dims=dims, ids=ids, c_sys=c_sys)
+    if cat == "mprocess":
+        return mt.generate_mprocess_object_from_mprocess_name_object_name(name, form, c_sys)
+    return se.generate_state_ensemble_object_from_state_ensemble_name_object_name(name, form, c_sys)
+
+
+def check_negative(item, ctx):
+    cat, sys_, valid, ids, kind = item["catalogue"], item["sys"], item["valid"], item["ids"], item["mutation"]
+    ctx.label(cat, "mutation:" + kind)
+    if kind == "object_name":
+        bf = item["form"]
+        res, err = try_call(lambda: _dispatch_catalogue(cat, valid, bf, sys_, ids))
+        ctx.nontrivial(True)
+        ctx.check(isinstance(err, ValueError), "negative:unknown_object_name_raises_value_error",
+                  lambda: f"{cat} {valid!r} object_name={bf!r}: " + (f"returned {type(res).__name__}" if err is None else f"{type(err).__name__}: {err}"))
+        return
+    bad = mutate(valid, kind)
+    if bad in _valid_names(cat):
+        ctx.label("mutant_is_valid")
+        return
+    ctx.nontrivial(True)
+    if cat == "state":
+        from quara.objects import state_typical as stt
+
+        ctx.check(stt.is_valid_state_name(bad) is False, "negative:is_valid_state_name_false", repr(bad))
+    for form in _FORMS[cat]:
+        res, err = try_call(lambda: _dispatch_catalogue(cat, bad, form, sys_, ids))
+        ctx.label("raises:" + (type(err).__name__ if err is not None else "nothing"))
+        ctx.check(err is not None, "negative:unknown_name_raises",
+                  lambda: f"{cat} name {bad!r} (from {valid!r}) form {form}: returned {type(res).__name__} instead of raising")
 
 
 FACETS = {
@@ -462,26 +1154,74 @@ FACETS = {
     },
     "gates": {
         "kind": "enumeration", "items": small_gate_items, "check": check_gate,
-        "budget": {"quick": {"examples": 0, "shards": 3}, "thorough": {"examples": 0, "shards": 4}},
+        "budget": {"quick": {"examples": 0, "shards": 6}, "thorough": {"examples": 0, "shards": 6}},
         "nontrivial": "non-identity gate that is multi-system, non-diagonal or a qutrit rotation",
         "min_nontrivial": 60,
     },
     "gates_2qutrit_single": {
         "kind": "enumeration", "items": qutrit2_single_items, "check": check_gate_2qutrit,
-        "budget": {"quick": {"examples": 0, "shards": 3}, "thorough": {"examples": 0, "shards": 4}},
+        "budget": {"quick": {"examples": 0, "shards": 4}, "thorough": {"examples": 0, "shards": 4}},
         "nontrivial": "every single-term 2-qutrit Hamiltonian name (all 198 are enumerated)",
         "min_nontrivial": 198,
     },
     "gates_2qutrit_two": {
         "kind": "enumeration", "items": qutrit2_two_items, "check": check_gate_2qutrit,
-        "budget": {"quick": {"examples": 0, "shards": 5}, "thorough": {"examples": 0, "shards": 16}},
+        "budget": {"quick": {"examples": 0, "shards": 6}, "thorough": {"examples": 0, "shards": 32}},
         "nontrivial": "two-term name whose Hamiltonian terms do not commute (exp(-iH) is not a product of the single-term gates)",
         "min_nontrivial": 100,
     },
     "lindbladians": {
         "kind": "enumeration", "items": lindbladian_items, "check": check_lindbladian,
-        "budget": {"quick": {"examples": 0, "shards": 3}, "thorough": {"examples": 0, "shards": 8}},
+        "budget": {"quick": {"examples": 0, "shards": 6}, "thorough": {"examples": 0, "shards": 16}},
         "nontrivial": "non-identity gate name (non-zero Hamiltonian)",
         "min_nontrivial": 100,
+    },
+    "mprocesses": {
+        "kind": "enumeration", "items": mprocess_items, "check": check_mprocess,
+        "budget": {"quick": {"examples": 0, "shards": 1}, "thorough": {"examples": 0, "shards": 1}},
+        "nontrivial": "every catalogued measurement process (13)",
+        "min_nontrivial": 13,
+    },
+    "ensembles": {
+        "kind": "enumeration", "items": ensemble_items, "check": check_ensemble,
+        "budget": {"quick": {"examples": 0, "shards": 1}, "thorough": {"examples": 0, "shards": 1}},
+        "nontrivial": "every catalogued state-ensemble name (7)",
+        "min_nontrivial": 7,
+    },
+    "legacy": {
+        "kind": "enumeration", "items": legacy_items, "check": check_legacy,
+        "budget": {"quick": {"examples": 0, "shards": 2}, "thorough": {"examples": 0, "shards": 2}},
+        "nontrivial": "named constructor other than the identity; multi-system tester lists",
+        "min_nontrivial": 70,
+    },
+    "bases": {
+        "kind": "enumeration", "items": bases_items, "check": check_bases,
+        "budget": {"quick": {"examples": 0, "shards": 2}, "thorough": {"examples": 0, "shards": 2}},
+        "nontrivial": "dimension above 2, or a composite system of more than one elemental system",
+        "min_nontrivial": 50,
+    },
+    "truth_table": {
+        "kind": "enumeration", "items": truth_items, "check": check_truth,
+        "budget": {"quick": {"examples": 0, "shards": 3}, "thorough": {"examples": 0, "shards": 3}},
+        "nontrivial": "the gate moves the input state to a different named state",
+        "min_nontrivial": 70,
+    },
+    "catalogues": {
+        "kind": "enumeration", "items": catalogue_items, "check": check_catalogue,
+        "budget": {"quick": {"examples": 0, "shards": 1}, "thorough": {"examples": 0, "shards": 1}},
+        "nontrivial": "every catalogue listing function",
+        "min_nontrivial": 7,
+    },
+    "dispatch": {
+        "kind": "enumeration", "items": dispatch_items, "check": check_dispatch,
+        "budget": {"quick": {"examples": 0, "shards": 1}, "thorough": {"examples": 0, "shards": 1}},
+        "nontrivial": "every (mode, name, listed object_name) triple sent through qoperation_typical.generate_qoperation_object",
+        "min_nontrivial": 25,
+    },
+    "negative": {
+        "kind": "enumeration", "items": negative_items, "check": check_negative,
+        "budget": {"quick": {"examples": 0, "shards": 3}, "thorough": {"examples": 0, "shards": 4}},
+        "nontrivial": "the mutated name is outside the catalogue (mutants that are themselves valid names are skipped and counted)",
+        "min_nontrivial": 1000,
     },
 }
